@@ -20,6 +20,8 @@ def gen(seed, index):
     rng = rng_for(PID, seed, index)
     G = g.G(rng)
     t = G.tree(kind=rng.choice(["S", "S", "S", "P", "P", "L", None]))
+    if rng.random() < 0.2:
+        t = share_leaves(rng, t)
     d = g.dur(t)
     pool = [x for x in g.interesting_times(rng, t) if 0 <= x <= d] or [0]
     k = min(len(pool), rng.choice([1, 1, 2, 2, 3, 4]))
@@ -43,6 +45,27 @@ def gen(seed, index):
     if r < 0.16:
         rng.shuffle(times)
     return ["split_at", t, ign] + times
+
+
+def share_leaves(rng, t):
+    """shared reference stream: some leaves become one object referenced at several positions
+    (label >= 1000 marks it for the runner; split_at is a pure operation, so the tree-as-value model applies)"""
+    leaves = []
+
+    def collect(n):
+        if n[0] == "L":
+            leaves.append(n)
+        else:
+            for c in n[3:]:
+                collect(c)
+    collect(t)
+    if len(leaves) < 2:
+        return t
+    src = rng.choice(leaves)
+    src[2] = 1000 + int(src[2])
+    for other in rng.sample(leaves, min(len(leaves), rng.randint(1, 3))):
+        other[1], other[2] = src[1], src[2]
+    return t
 
 
 def compare(case, mo, io):
